@@ -47,6 +47,26 @@ type modelNames struct {
 	entrySet   map[string]bool
 	userLabels map[string]string // label written inside a script -> scope ("", "global", "local")
 	topLevel   map[string]bool   // names of every top-level definition (scripts, texts, movements, marts, mapscripts, tables)
+	generated  map[string]bool   // labels found in an output that the author did not write (see noteOutput)
+}
+
+// noteOutput records every label an output defines inside a script block that is
+// neither written by the author nor a top-level / hoisted name: whatever its
+// shape, it is a compiler-generated sub-label.
+func (m *modelNames) noteOutput(a *Asm) {
+	if m.generated == nil {
+		m.generated = map[string]bool{}
+	}
+	for name, defs := range a.Labels {
+		if _, user := m.userLabels[name]; user || m.topLevel[name] || isHoistedLabel(name) {
+			continue
+		}
+		for _, d := range defs {
+			if inScript(a, d, m) {
+				m.generated[name] = true
+			}
+		}
+	}
 }
 
 func collectNames(f *File) *modelNames {
@@ -93,6 +113,9 @@ func (m *modelNames) genSubLabel(name string) bool {
 	}
 	if m.topLevel[name] {
 		return false
+	}
+	if m.generated[name] {
+		return true
 	}
 	mm := subLabelRe.FindStringSubmatch(name)
 	return mm != nil && m.entrySet[mm[1]]
